@@ -639,6 +639,12 @@ class Exec:
         return self.mk_bool(acc)
 
     def cmp(self, op, a, b, node=None):
+        if a.k == "tuple" and b.k == "tuple" and isinstance(op, (ast.Eq, ast.NotEq)):
+            if len(a.t) != len(b.t):
+                r = z3.BoolVal(False)
+            else:
+                r = z3.And(*[self.cmp(ast.Eq(), x, y, node) for x, y in zip(a.t, b.t)]) if a.t else z3.BoolVal(True)
+            return r if isinstance(op, ast.Eq) else z3.Not(r)
         if a.k == "none" or b.k == "none":
             same = (a.k == b.k)
             if isinstance(op, (ast.Is, ast.Eq)):
@@ -1089,6 +1095,24 @@ class Exec:
             return Val("float", self.to_float(v), PYFLOAT, v.extra)
         if fn == "bool":
             return self.mk_bool(self.to_bool(self.ev(n.args[0])))
+        if fn == "tuple" and len(n.args) == 1:
+            v = self.ev(n.args[0])
+            if v.k == "tuple":
+                return v
+            raise Undecidable("tuple() of non-tuple")
+        if fn == "to_cy" and self.c.py_mode and len(n.args) == 2:
+            # core/_ext/types.py: arr.astype(dtype, copy=True, order='c'): same shape, C-contiguous, fresh
+            v = self.ev(n.args[0])
+            if v.k != "arr":
+                raise Undecidable("to_cy of non-array")
+            et = self.dtype_of(n.args[1])
+            r = ArrObj(f"tocy_{next(self.n)}", et, v.t.ndim, self.fm, shape=list(v.t.shape), fresh=True)
+            r.contig = True
+            r.is_bool = getattr(v.t, "is_bool", False)
+            self.objs[r.id] = r
+            same = (et.kind == v.t.elem.kind) or (et.kind == "int" and v.t.elem.kind in ("int", "bool"))
+            self.heap[r.id] = self.heap[v.t.id] if same and r.sort == v.t.sort else z3.Const(f"{r.name}__c", r.sort)
+            return Val("arr", r, T("arr", elem=et, ndim=r.ndim, mode="c"))
         if fn == "len":
             v = self.ev(n.args[0])
             if v.k == "arr":
